@@ -28,7 +28,7 @@ def prove(rep, nmfu, program, prop="C01"):
     Engine.mutable_sets = True
     try:
         # each part on its own: a construct outside the modelled subset in one function must not drop the proofs of the others
-        for part in (_attach, _adoption, _interruptable, _transition_copy, _transition_attach):
+        for part in (_attach, _adoption, _interruptable, _transition_copy, _transition_attach, _transition_from_key):
             try:
                 nob += part(rep, nmfu, program, prop)
             except (Unsupported, NeedFork, KeyError, AttributeError) as e:
@@ -234,6 +234,41 @@ def _transition_attach(rep, nmfu, program, prop):
                 cl.structural("actions-in-order", _same(f["actions"], want), f"actions {_names(_items(f['actions']))}, expected {'new ++ present' if prepend else 'present ++ new'}")
                 cl.structural("frame", _same(f["on_values"], [O]) and f["target"] is tgt and f["is_fallthrough"] is False and f["error_handling"] is False, "symbols / target / kind changed")
                 cl.structural("returns-self", v is me, "attach must return the transition")
+                n += cl.n
+    return n
+
+
+def _transition_from_key(rep, nmfu, program, prop):
+    """DFTransition.from_key (used when DFState.transition splits a transition): a new transition on the given symbols that inherits
+    target, actions (in order, in a list of its own), fall-through and error-handling flag; the inherited transition is unchanged."""
+    fnq = "DFTransition.from_key"
+    rep.fn(fnq, "DFTransition.__init__", "DFTransition.to", "DFTransition.fallthrough", "DFTransition.handles_else")
+    n = 0
+    Else = nmfu.DFTransition.Else
+    for ft in (False, True):
+        for eh in (False, True):
+            for kname, key in (("list", ["a", "b"]), ("one-char", "a"), ("else", Else), ("set", None)):
+                def body(eng, ft=ft, eh=eh, key=key, kname=kname):
+                    A = [SObj(nmfu.CallHook, {"name": "h0"}), SObj(nmfu.CallHook, {"name": "h1"})]
+                    tgt = SObj(nmfu.DFState, {"transitions": HList([])})
+                    inh = SObj(nmfu.DFTransition, {"on_values": HList(["x"]), "actions": HList(list(A)), "target": tgt, "is_fallthrough": ft, "error_handling": eh})
+                    k = HList(list(key)) if kname == "list" else (frozenset({"a", "b"}) if kname == "set" else key)
+                    v, _ = call_function(eng, fnq, [k, inh], self_obj=nmfu.DFTransition)
+                    return (v, inh, A, tgt), {}
+                rs = list(explore(program, body, contracts=DEBUG_CONTRACTS))
+                cl = Clauses(rep, prop, fnq, f"{kname}.ft={ft}.eh={eh}", [], None)
+                if len(rs) != 1 or rs[0].exits or rs[0].dead is not False or not isinstance(rs[0].value[0], SObj):
+                    cl.fail("no-exception", "raises / forks")
+                    n += cl.n
+                    continue
+                v, inh, A, tgt = rs[0].value
+                f, g = v.fields, inh.fields
+                on = _items(f.get("on_values", []))
+                want_on = {"list": ["a", "b"], "one-char": ["a"], "else": [Else], "set": None}[kname]
+                cl.structural("symbols", (sorted(on) == ["a", "b"]) if want_on is None else (len(on) == len(want_on) and all(x is y or x == y for x, y in zip(on, want_on))), f"symbols {on!r}")
+                cl.structural("inherits", _same(f.get("actions", []), A) and f.get("target") is tgt and f.get("is_fallthrough") is ft and f.get("error_handling") is eh, "target / actions / kind not inherited")
+                cl.structural("own-action-list", f.get("actions") is not g["actions"] and v is not inh, "the new transition shares its actions list with the inherited one")
+                cl.structural("inherited-unchanged", _same(g["actions"], A) and _same(g["on_values"], ["x"]) and g["target"] is tgt, "the inherited transition was modified")
                 n += cl.n
     return n
 
